@@ -354,3 +354,16 @@ Theorem hashed_args_reach_hash_key :
 Proof.
   intros p po. apply hashed_args_reach_key; apply hash_key_side_conditions.
 Qed.
+
+(* ------------------------------------------------------------------ Language::from_file_name: already-preprocessed inputs *)
+
+(* REVIEWED (gcc "Overall Options"): suffixes of source that must NOT be preprocessed (.i .ii .mi .mii) and of assembler
+   input (.s needs none, .S would).  sccache re-emits `-x <language>` and runs `-E` itself, which would preprocess such
+   input a second time (macro names in the text replaced again, __LINE__ renumbered, -D applied): as long as
+   language_to_*_arg has no `*-cpp-output`, these suffixes must have NO language, so that the request is handed back
+   ("unknown source language") and the client runs the compiler itself. *)
+Definition AlreadyPreprocessed : list bytes := [ bs "i"; bs "ii"; bs "mi"; bs "mii"; bs "s"; bs "S"; bs "sx" ].
+
+Theorem preprocessed_suffixes_have_no_language :
+  forallb (fun e => match assoc e ext_lang_table with None => true | Some _ => false end) AlreadyPreprocessed = true.
+Proof. vm_compute. reflexivity. Qed.
